@@ -236,6 +236,11 @@ def run(chk: Check):
     if not regen_or_report(chk):
         return
     proved = chk.prove(FAM, "Props.C11", THEOREMS, extra_targets=["Model/Closure.vo"])
+    if proved and chk.tier == "thorough":
+        okc, outc = FAM.coqchk("Props.C11")
+        chk.cov["coqchk"] = " ".join(outc.split())[-1500:]
+        if not okc:
+            chk.broken_obligation("coqchk rejected Defs.Props.C11", outc[-600:])
     from ..translate import tables
     limit = tables.size_guard()
     names = native_names()
